@@ -301,13 +301,18 @@ macro "gen_agree" : tactic => `(tactic|
       tryU64, tryU32, plainI64, bind_val, bind_none, bind_panic, pure_eq, bind_ite, inI64, inU64, inU32])
    all_goals (try time_gen_consts)
    all_goals (try simp only [asU64, asU32, RawTS, NormDur, I64_MIN, I64_MAX, U64_MAX, U32_MAX, TWO64, TWO32, NANOS,
-      Int.add_zero, Int.sub_zero, Int.zero_add, wrapI64_eq, if_true, if_false, eq_self, Bool.false_eq_true] at *)
+      Int.add_zero, Int.sub_zero, Int.zero_add, wrapI64_eq, if_true, if_false, eq_self, Bool.false_eq_true,
+      decide_eq_true_eq, Bool.not_eq_true', decide_eq_false_iff_not, Bool.and_eq_true, Bool.or_eq_true] at *)
    all_goals repeat' (first
      | with_reducible rfl
      | (apply ite_both) <;> intro _
-     | ((apply ite_left) <;> intro _ <;> try (exfalso; omega))
-     | ((apply ite_right) <;> intro _ <;> try (exfalso; omega)))
-   all_goals (first | (simp only [R.val.injEq, TS.mk.injEq, Dur.mk.injEq, reduceCtorEq]; omega) | omega)))
+     | ((apply ite_left) <;> intro _ <;> try (first | contradiction | (exfalso; omega)))
+     | ((apply ite_right) <;> intro _ <;> try (first | contradiction | (exfalso; omega))))
+   all_goals (first
+     | (simp only [R.val.injEq, TS.mk.injEq, Dur.mk.injEq, reduceCtorEq, and_true, true_and, and_self]; done)
+     | (simp only [R.val.injEq, TS.mk.injEq, Dur.mk.injEq, reduceCtorEq, and_true, true_and, and_self]; omega)
+     | omega
+     | contradiction)))
 
 /-- **`+ Duration`** as written in the source = the model, for every TimeSpec and every Duration -/
 theorem gen_agrees_add (rel : Bool) (t : TS) (d : Dur) (ht : RawTS t) (hd : NormDur d) :
